@@ -495,6 +495,31 @@ func registerCore(e *Engine) {
 		}
 		panic(engErr("strings.EqualFold on symbolic strings"))
 	}
+	in["strings.Index"] = func(p *Path, a []Value) Value {
+		x, ok1 := tStr(a[0]).ConstStr()
+		y, ok2 := tStr(a[1]).ConstStr()
+		if ok1 && ok2 {
+			return VInt{IntC64(int64(strings.Index(x, y)))}
+		}
+		return VInt{mk("str.indexof", SInt, tStr(a[0]), tStr(a[1]), IntC64(0))}
+	}
+	// binary floating point on a symbolic decimal string: not encoded. On a path of a property
+	// that demands exact decimal arithmetic this is reported as a candidate, stressed towards
+	// amounts with more than 17 significant digits (whole nund, last digit 1).
+	floatOnSym := func(what string) func(p *Path, a []Value) Value {
+		return func(p *Path, a []Value) Value {
+			st := tStr(a[0])
+			if _, ok := st.ConstStr(); ok {
+				panic(engErr("%s on a constant string is not modelled", what))
+			}
+			raw := App("decRawOfStr", SInt, st)
+			nund := GoQuo(raw, IntC(big.NewInt(1000000000)))
+			e17 := new(big.Int).Exp(big.NewInt(10), big.NewInt(17), nil)
+			stress := And(Eq(Mod(raw, IntC(big.NewInt(1000000000))), IntC64(0)), Ge(nund, IntC(e17)), Eq(Mod(nund, IntC64(10)), IntC64(1)))
+			panic(unmodelled{Label: "INV.exact-decimal-path-uses-binary-floating-point", Site: p.where(), Msg: what + " on a symbolic decimal string", Stress: stress})
+		}
+	}
+	in["strconv.ParseFloat"] = floatOnSym("strconv.ParseFloat")
 	in["strings.Contains"] = func(p *Path, a []Value) Value {
 		x, ok1 := tStr(a[0]).ConstStr()
 		y, ok2 := tStr(a[1]).ConstStr()
